@@ -34,6 +34,16 @@ func c04Check(c c04Case) (vk.Result, error) {
 	if err != nil {
 		return res, vk.Violatef("MakeObfuscator(%d): %v", c.Method, err)
 	}
+	// a server process holds sessions of several users with different methods: obfuscators of the other methods are
+	// created after this one and before it is used - they must not influence each other
+	for j := range vAllMethods {
+		// rotating order, so that each of the other methods is the most recently constructed one in some cases
+		if m := vAllMethods[int((uint64(j)+uint64(c.Len)+c.Seq%7)%uint64(len(vAllMethods)))]; m != c.Method {
+			var k2 [32]byte
+			k2[0] = byte(m)
+			MakeObfuscator(m, k2)
+		}
+	}
 	ref, err := vk.NewRefCodec(c.Method, key)
 	if err != nil {
 		return res, fmt.Errorf("harness: %v", err)
